@@ -148,24 +148,33 @@ def oracle_run_hops(args):
 def oracle_drift(args):
     """hop-free runs at dt, dt/2, dt/4 over the same time: energy drift shrinks ~4x per halving"""
     drifts = []
-    for k in range(3):
+    escale = 1e-300
+
+    def level(k):
         spec = dict(args)
         spec["dt"] = args["dt"] / 2 ** k
         spec["steps"] = args["steps"] * 2 ** k
         spec["options"] = dict(args.get("options", {}), zeta_list=[1e300] * (spec["steps"] + 5))
         traces, _ = _run_spec(spec)
         e = np.array([s["energy"] for s in traces[0]])
-        drifts.append(float(np.max(np.abs(e - e[0]))))
-        escale = float(np.max(np.abs([s["kinetic"] for s in traces[0]]))) + 1e-300
+        return float(np.max(np.abs(e - e[0]))), float(np.max(np.abs([s["kinetic"] for s in traces[0]]))) + 1e-300
+    for k in range(3):
+        d_, escale = level(k)
+        drifts.append(d_)
     noise = 1e-12 * escale
-    ok = True
-    ratios = []
-    for a, b in zip(drifts[:-1], drifts[1:]):
-        if a > 100 * noise:
-            ratios.append(a / max(b, 1e-300))
-    # judged only when every measured ratio says "not second order" (a non-asymptotic run gives scattered ratios)
-    if ratios and all(r < 2.8 for r in ratios):
-        ok = False
+
+    def judge(ds):
+        rs = [a / max(b, 1e-300) for a, b in zip(ds[:-1], ds[1:]) if a > 100 * noise]
+        # judged only when every measured ratio says "not second order" (a non-asymptotic run gives scattered ratios)
+        return rs, not (rs and all(r < 2.8 for r in rs))
+    ratios, ok = judge(drifts)
+    if not ok:
+        # a coarse step on a steep model is not in the asymptotic regime yet (clean-tree sweep, seed 202: ratios 1.6, 2.6 at dt=4,
+        # 3.7, 6.6 two levels down): before judging, go down two more levels and look at the finest ratios only
+        for k in (3, 4):
+            d_, _e = level(k)
+            drifts.append(d_)
+        ratios, ok = judge(drifts[-3:])
     return ok, {"drifts": drifts, "ratios": ratios}, {"ratio_min": 2.8, "expected": 4.0}, \
         "energy drift does not shrink quadratically with dt: drifts %r" % drifts
 
